@@ -69,6 +69,16 @@ class ProgModule(nn.Module):
         for p in spec["params"]:
             data = torch.randn(*p["shape"], generator=g) * p.get("std", 1.0) + p.get("mean", 0.0)
             setattr(self, p["name"], nn.Parameter(data))
+        for bspec in spec.get("bufs", []):
+            shape = bspec["shape"]
+            if bspec["kind"] == "boolmask":
+                t = torch.rand(*shape, generator=g) > 0.3
+                t = t | torch.eye(shape[-1], dtype=torch.bool).expand(*shape)
+            elif bspec["kind"] == "floatmask":
+                t = torch.randn(*shape, generator=g)
+            else:
+                t = torch.randn(*shape, generator=g)
+            self.register_buffer(bspec["name"], t)
         torch.manual_seed(spec["seed"] + 1)
         for m in spec["mods"]:
             setattr(self, m["name"], _mk_mod(m))
@@ -127,7 +137,7 @@ def _plain_op(mod: nn.Module, st: Dict[str, Any], a: List[Any]) -> Any:
     if op == "layer_norm":
         w = getattr(mod, st["w"]) if st.get("w") else None
         b = getattr(mod, st["b"]) if st.get("b") else None
-        return F.layer_norm(a[0], tuple(st["shape"]), w, b, st.get("eps", 1e-5))
+        return F.layer_norm(a[0], tuple(st["nshape"]), w, b, st.get("eps", 1e-5))
     if op == "matmul":
         rhs = getattr(mod, st["w"]) if st.get("w") else a[1]
         return torch.matmul(a[0], rhs)
@@ -168,7 +178,7 @@ def _plain_op(mod: nn.Module, st: Dict[str, Any], a: List[Any]) -> Any:
     if op == "mul_scalar":
         return a[0] * st["c"]
     if op == "reshape":
-        return a[0].reshape(st["shape"])
+        return a[0].reshape(st["tshape"])
     if op == "flatten01":
         return a[0].flatten(0, 1)
     if op == "transpose":
@@ -409,7 +419,7 @@ class Reference:
             if op == "layer_norm":
                 w = getattr(mod, st["w"]) if st.get("w") else None
                 b = getattr(mod, st["b"]) if st.get("b") else None
-                shape, eps = tuple(st["shape"]), st.get("eps", 1e-5)
+                shape, eps = tuple(st["nshape"]), st.get("eps", 1e-5)
             else:
                 m = sub(st["mod"])
                 w, b, shape, eps = m.weight, m.bias, m.normalized_shape, m.eps
